@@ -1,1 +1,51 @@
-/-! # C02 — property theorems (to be filled) -/
+import PraatModel.Spec.TextGridFormat
+import PraatModel.Props.C01
+import PraatModel.Props.C04
+
+/-!
+# C02 — written files are well-formed for an independent, spec-based reader
+
+`Spec.decode` (Spec/TextGridFormat.lean) is written from Praat's manual, not from praatio's reader; the correspondence
+run feeds it every text that praatio's emitters write (keyword-bearing labels included) and compares the decoded
+content with the in-memory textgrid.  Proved here, for ALL labels: the spec tokenizer turns a written (quote-doubled)
+text back into the label; written quotes come in pairs; and (from C04) blank filling yields a partition of the span.
+-/
+namespace C02
+
+/-- every quote of a name or label is doubled in the file -/
+theorem quotes_doubled (s : List Char) : (escapeL s).count q = 2 * s.count q := by
+  induction s with
+  | nil => rfl
+  | cons c cs ih =>
+    by_cases hc : c = q
+    · subst hc; simp only [escapeL, if_true, List.count_cons_self, ih]; omega
+    · have hc' : (c == q) = false := by simpa using hc
+      simp only [escapeL, hc, if_false, List.count_cons, hc', ih]
+      simp
+
+/-- the spec tokenizer on a written text: whatever the label contains (quotes, newlines, the formats' own keywords),
+the text token is the label and tokenising continues right after the closing quote -/
+theorem tokens_written_text (fuel : Nat) (s : List Char) (r : Char) (rest : List Char) (hr : r ≠ q) :
+    Spec.tokens (fuel + 1) (q :: (escapeL s ++ q :: r :: rest)) =
+      (Spec.tokens fuel (r :: rest)).map (Spec.Tok.text (String.ofList s) :: ·) := by
+  have hq : pyIsSpace q = false := C01.q_not_space
+  simp only [Spec.tokens, hq, Bool.false_eq_true, if_false, if_true, C01.specText_written s r rest hr]
+
+-- keywords inside a label cannot confuse the spec reader: a label consisting of a complete fake tier header is still
+-- one text token
+#guard Spec.tokens 100 ("\"item [2]:\n    class = \"\"IntervalTier\"\"\" 5".toList) ==
+    some [Spec.Tok.text "item [2]:\n    class = \"IntervalTier\"", Spec.Tok.num "5"]
+
+/-- blank filling makes every interval tier an ascending, gap-free, overlap-free partition of the file's span
+(re-export of C04.fillInBlanks_tiles in the words of this property) -/
+theorem fill_partition (es : List (Iv Int)) (lo hi : Int) (hlh : lo < hi) (hp : Pos es) (hd : Disj es)
+    (hin : ∀ e ∈ es, lo ≤ e.s ∧ e.e ≤ hi) :
+    ∃ es', fillInBlanks es lo hi = .ok es' ∧ C04.Chain lo hi es' ∧ es' ≠ [] :=
+  let ⟨es', h1, h2, h3, _⟩ := C04.fillInBlanks_tiles es lo hi hlh hp hd hin
+  ⟨es', h1, h2, h3⟩
+
+#guard (Spec.decode "File type = \"ooTextFile\"\nObject class = \"TextGrid\"\n\n0\n5\n<exists>\n1\n\"IntervalTier\"\n\"a\"\"b\"\n0\n5\n1\n1\n2.5e+00\n\"x\"\n").map (·.tiers.map (·.entries)) ==
+  some [[["1", "2.5e+00", "x"]]]
+#guard (Spec.decode "File type = \"ooTextFile\"\nObject class = \"TextGrid\"\n\n0\n5\n<exists>\n1\n\"IntervalTier\"\n\"a\"\n0\n5\n2\n1\n2\n\"x\"\n").isNone   -- declared size 2, one item
+
+end C02
